@@ -686,6 +686,13 @@ def plan(al, d, seed, quick):
                ([("mul", ("src", 0), ("mul", ("sym", 1), third))], ("P", 0), "digits"),
                ([("mul", ("mul", ("sym", 2), many), ("src", 1))], ("P", 0), "digits"),
                ([("mul", ("ssrc", 0), ("mul", ("symT", 0), sev))], ("P", 0), "digits")]
+    # inverses of fixed operands for a side (a right inverse exists in every shipped algebra)
+    groups += [([("mul", ("src", 0), ("rinv", ("sym", 1)))], ("P", 0), "fixed-inverse"), ([("rinv", ("sym", 2))], ("P", 0), "fixed-inverse"),
+               ([("mul", ("rinv", ("symT", 0)), ("src", 1))], ("P", 0), "fixed-inverse"),
+               ([("add", ("rinv", ("mul", ("sym", 0), ("sym", 1))), ("src", 0))], ("P", 0), "fixed-inverse"),
+               ([("mul", ("src", 1), ("rinv", ("sp", 2)))], ("P", 0), "fixed-inverse")]
+    if al != "AVtb":
+        groups += [([("mul", ("src", 0), ("linv", ("sym", 1)))], ("P", 0), "fixed-inverse"), ([("mul", ("inv", ("sym", 2)), ("src", 0))], ("P", 0), "fixed-inverse")]
     if d in (4, 16) or not quick:
         for e in exhaustive(al, 3, 2):
             if quick and depth(e) > 1 and (d == 16 or rng.random() < 0.5):
